@@ -19,6 +19,9 @@ What can be shared is now shared by definition (`globB` = `RedisX.globMatch` —
   the M7 command `op7 k op` on the embedded store answers the embedded reply and leaves the embedded
   store.  (`OpOk`: RPUSH / LPUSH carry at least one element — the parser's arity rule.)
 * `run1_refines_m7`: lifted to sequences.
+* `exec2_refines_m7`: the two-key operations RENAME, RENAMENX, RPOPLPUSH, LMOVE (all four LEFT / RIGHT combinations,
+  `src = dst` rotation included) and SORT … STORE are the M7 commands `op27 a b op` on the embedded store (the EVAL
+  two-key script of the small executor is not an M7 command: scripts are `Model/Script7.lean`).
 An edit of M7's GET / SET / SETNX / APPEND / STRLEN / INCR / GETDEL / GETSET / TYPE / RPUSH / LPUSH / LPOP /
 RPOP / LLEN / LRANGE (someone following a repaired /repo) that is not mirrored in `ShardsStr` breaks
 this proof at build time instead of raising `C03:model-mismatch` at run time.
@@ -300,6 +303,189 @@ example : (runOps [] [(1, .set [53]), (1, .append [48]), (1, .incr), (2, .rpush 
     (1, .get)]).2 =
   [.one .ok, .one (.int 2), .one (.int 51), .one (.int 1), .one (.bulk [97]), .one (.bulk [110, 111, 110, 101]),
    .one (.bulk [53, 49])] := by decide
+
+/-! ## the two-key operations -/
+
+def side7 (fromLeft : Bool) : Redis.Side := if fromLeft then .left else .right
+
+/-- the M7 command a two-key operation of the small executor stands for (the EVAL two-key script is
+    not an M7 command: `Model/Script7.lean`) -/
+def op27 (a b : Key) : Op2 → Option Redis.Cmd
+  | .rename => some (.rename a b)
+  | .renamenx => some (.renamenx a b)
+  | .rpoplpush => some (.rpoplpush a b)
+  | .lmove fl tl => some (.lmove a b (side7 fl) (side7 tl))
+  | .sortStore => some (.sort a (some b))
+  | .evalSetIfExists _ => none
+
+def rep27 (r : Reply) : Redis.Reply :=
+  match r with
+  | .one x => r17 x
+  | .many l => .arr (l.map elem7)
+  | _ => .nil
+
+theorem put_put_same {s : St} (hw : WF s) (a b : Nat) : put (put s a (get s a)) b (get s b) = s := by
+  rw [put_same hw a, put_same hw b]
+
+theorem put_none_some_same {s : St} (hw : WF s) (a : Nat) (v : SVal) (hg : get s a = some v) :
+    put (put s a none) a (some v) = s := by
+  apply NMap.ext (wf_put _ _ _ (wf_put _ _ _ hw)) hw
+  intro k'
+  rw [get_put _ _ _ (wf_put _ _ _ hw), get_put _ _ _ hw]
+  split
+  · rename_i h; rw [h, hg]
+  · rfl
+
+theorem insert_erase_same {ν : Type} {m : NMap ν} (hw : WF m) (a : Nat) (v : ν) :
+    NMap.insert a v (NMap.erase a m) = NMap.insert a v m := by
+  apply NMap.ext (wf_insert (wf_erase hw)) (wf_insert hw)
+  intro k
+  rw [get_insert, get_insert, get_erase hw]
+  split <;> rfl
+
+theorem insert_insert_same {ν : Type} {m : NMap ν} (hw : WF m) (a : Nat) (v w : ν) :
+    NMap.insert a v (NMap.insert a w m) = NMap.insert a v m := by
+  apply NMap.ext (wf_insert (wf_insert hw)) (wf_insert hw)
+  intro k
+  rw [get_insert, get_insert, get_insert]
+  split <;> rfl
+
+theorem pushOne_ne (sd : Redis.Side) (l : List Redis.BS) (x : Redis.BS) : Redis.pushOne sd l x ≠ [] := by
+  cases sd <;> simp [Redis.pushOne]
+
+theorem exec2_rename (s : St) (hs : OkStore s) (now a b : Nat) :
+    Redis.exec (embS s) now (.rename a b) = (embS (exec2 s a b .rename).1, rep27 (exec2 s a b .rename).2) := by
+  obtain ⟨hw, hne⟩ := hs
+  simp only [Redis.exec, Redis.execRename, exec2, slot2, get_embS]
+  cases hg : get s a with
+  | none =>
+    have := put_put_same hw a b
+    rw [hg] at this
+    simp [this, rep27, r17, err7, errNoSuchKey, errWrongType, errNotInt, errOverflow]
+  | some v =>
+    by_cases hab : a = b
+    · subst hab
+      simp [put_none_some_same hw a v hg, rep27, r17]
+    · simp [hab, embS_put (wf_put s a none hw), embS_put hw, rep27, r17]
+
+theorem exec2_renamenx (s : St) (hs : OkStore s) (now a b : Nat) :
+    Redis.exec (embS s) now (.renamenx a b) = (embS (exec2 s a b .renamenx).1, rep27 (exec2 s a b .renamenx).2) := by
+  obtain ⟨hw, hne⟩ := hs
+  simp only [Redis.exec, Redis.execRenameNx, exec2, slot2, get_embS]
+  have hpp := put_put_same hw a b
+  cases hg : get s a with
+  | none =>
+    rw [hg] at hpp
+    simp [hpp, rep27, r17, err7, errNoSuchKey, errWrongType, errNotInt, errOverflow]
+  | some v =>
+    rw [hg] at hpp
+    cases hb : get s b with
+    | some w =>
+      rw [hb] at hpp
+      simp [hpp, rep27, r17]
+    | none =>
+      simp [embS_put (wf_put s a none hw), embS_put hw, rep27, r17]
+
+theorem popEnd_popSide (fl : Bool) (l : List Bytes) : popEnd fl l = Redis.popSide (side7 fl) l := by
+  cases fl <;> simp only [popEnd, Redis.popSide, side7] <;> rfl
+
+theorem pushEnd_pushOne (tl : Bool) (x : Bytes) (d : List Bytes) : pushEnd tl x d = Redis.pushOne (side7 tl) d x := by
+  cases tl <;> rfl
+
+theorem exec2_lmove (s : St) (hs : OkStore s) (now a b : Nat) (fl tl : Bool) :
+    Redis.exec (embS s) now (.lmove a b (side7 fl) (side7 tl)) =
+      (embS (exec2 s a b (.lmove fl tl)).1, rep27 (exec2 s a b (.lmove fl tl)).2) := by
+  obtain ⟨hw, hne⟩ := hs
+  simp only [Redis.exec, Redis.execLMove, exec2, slot2, moveSlot, lookupList_embS, popEnd_popSide, pushEnd_pushOne]
+  have hpp := put_put_same hw a b
+  rcases hga : get s a with _ | (sa | la)
+  · rw [hga] at hpp
+    simp [hpp, rep27, r17]
+  · rw [hga] at hpp
+    simp [hpp, rep27, r17, wrongType, err7, errWrongType]
+  · rw [hga] at hpp
+    have hla : la ≠ [] := fun e => hne a (by rw [hga, e])
+    obtain ⟨x, rest, hpop⟩ : ∃ x rest, Redis.popSide (side7 fl) la = some (x, rest) := by
+      cases fl <;> simp only [side7, Redis.popSide]
+      · cases hq : la.getLast? with
+        | none => exact absurd (List.getLast?_eq_none_iff.mp hq) hla
+        | some x => exact ⟨x, _, rfl⟩
+      · cases la with
+        | nil => exact absurd rfl hla
+        | cons x r => exact ⟨x, r, rfl⟩
+    have hwa : WF (put s a none) := wf_put s a none hw
+    have hwe := wf_embS hw
+    by_cases hab : a = b
+    · subst hab
+      simp only [hga, hpop, beq_self_eq_true, if_true]
+      cases rest with
+      | nil =>
+        simp [embS_put hw, embS_put hwa, rep27, r17, emb, putList_ne _ _ _ _ (pushOne_ne _ _ _), Redis.pushOne,
+          insert_erase_same hwe]
+        cases tl <;> rfl
+      | cons y r =>
+        have hwi : WF (put s a (some (SVal.list (y :: r)))) := wf_put s a _ hw
+        simp [embS_put hw, embS_put hwi, rep27, r17, emb, putList_ne _ _ _ _ (pushOne_ne _ _ _),
+          insert_insert_same hwe]
+    · simp only [hga, hpop, hab, if_false]
+      have hbeq : (a == b) = false := by simp [hab]
+      rcases hgb : get s b with _ | (sb | lb)
+      · cases rest with
+        | nil =>
+          simp [hbeq, embS_put hw, embS_put hwa, rep27, r17, emb, Redis.putList]
+        | cons y r =>
+          have hwi : WF (put s a (some (SVal.list (y :: r)))) := wf_put s a _ hw
+          simp [hbeq, embS_put hw, embS_put hwi, rep27, r17, emb, Redis.putList]
+      · rw [hgb] at hpp
+        simp [hpp, rep27, r17, wrongType, err7, errWrongType]
+      · simp only [putList_ne _ _ _ _ (pushOne_ne (side7 tl) lb x)]
+        cases rest with
+        | nil =>
+          simp [hbeq, embS_put hw, embS_put hwa, rep27, r17, emb, Redis.putList]
+        | cons y r =>
+          have hwi : WF (put s a (some (SVal.list (y :: r)))) := wf_put s a _ hw
+          simp [hbeq, embS_put hw, embS_put hwi, rep27, r17, emb, Redis.putList]
+
+theorem exec2_rpoplpush (s : St) (hs : OkStore s) (now a b : Nat) :
+    Redis.exec (embS s) now (.rpoplpush a b) = (embS (exec2 s a b .rpoplpush).1, rep27 (exec2 s a b .rpoplpush).2) :=
+  exec2_lmove s hs now a b false true
+
+theorem put_put_over {s : St} (hw : WF s) (a : Nat) (o o' : Option SVal) : put (put s a o) a o' = put s a o' := by
+  apply NMap.ext (wf_put _ _ _ (wf_put _ _ _ hw)) (wf_put _ _ _ hw)
+  intro k
+  rw [get_put _ _ _ (wf_put _ _ _ hw), get_put _ _ _ hw, get_put _ _ _ hw]
+  split <;> rfl
+
+theorem exec2_sortStore (s : St) (hs : OkStore s) (now a b : Nat) :
+    Redis.exec (embS s) now (.sort a (some b)) = (embS (exec2 s a b .sortStore).1, rep27 (exec2 s a b .sortStore).2) := by
+  obtain ⟨hw, hne⟩ := hs
+  simp only [Redis.exec, Redis.execSort, Redis.sortSource, exec2, slot2, get_embS]
+  have hpp := put_put_same hw a b
+  have hps := put_same hw a
+  rcases hga : get s a with _ | (sa | la)
+  · rw [hga] at hps
+    simp [hps, embS_put hw, rep27, r17, Redis.sortAll, Redis.putList]
+  · rw [hga] at hpp
+    simp [hpp, emb, rep27, r17, wrongType, err7, errWrongType]
+  · rw [hga] at hpp hps
+    simp only [Option.map_some, emb]
+    by_cases hany : (la.any fun e => (Redis.sortNum e).isNone) = true
+    · simp [hany, hpp, rep27, r17, err7, errNotDouble, errWrongType, errNotInt, errOverflow, errNoSuchKey]
+    · simp only [hany, Bool.false_eq_true, if_false]
+      cases hso : Redis.sortAll la with
+      | nil => simp [hps, embS_put hw, rep27, r17, Redis.putList]
+      | cons y r => simp [hps, embS_put hw, rep27, r17, emb, Redis.putList]
+
+/-- **every two-key operation of the small executor that is an M7 command IS that command** -/
+theorem exec2_refines_m7 (s : St) (hs : OkStore s) (now a b : Nat) (op : Op2) (c : Redis.Cmd) (hc : op27 a b op = some c) :
+    Redis.exec (embS s) now c = (embS (exec2 s a b op).1, rep27 (exec2 s a b op).2) := by
+  cases op <;> simp only [op27, Option.some.injEq, reduceCtorEq] at hc <;> subst hc
+  · exact exec2_rename s hs now a b
+  · exact exec2_renamenx s hs now a b
+  · exact exec2_rpoplpush s hs now a b
+  · exact exec2_lmove s hs now a b _ _
+  · exact exec2_sortStore s hs now a b
+
 
 /-- the small executor's KEYS / SCAN MATCH matcher IS the reference model's `stringmatchlen` (it is
     only evaluated differently: every recursive call bound once) -/
